@@ -8,7 +8,6 @@ import (
 	"strings"
 
 	"github.com/gnolang/gno/tm2/pkg/amino"
-	"github.com/gnolang/gno/tm2/pkg/store"
 
 	gno "github.com/gnolang/gno/gnovm/pkg/gnolang"
 )
@@ -43,6 +42,16 @@ type Snap struct {
 	Order  []gno.ObjectID // sorted by (pkgid, newtime)
 	Realms map[gno.PkgID]*RawRealm
 	Bad    []string // keys that could not be parsed/decoded
+
+	exists func(gno.ObjectID) bool
+}
+
+// Exists reports whether an object id is present in the store (any package).
+func (s *Snap) Exists(id gno.ObjectID) bool {
+	if _, ok := s.Objs[id]; ok {
+		return true
+	}
+	return s.exists != nil && s.exists(id)
 }
 
 const oidPrefix = "oid:"
@@ -188,11 +197,16 @@ func Decode(key string, val []byte) (*RawObj, error) {
 	return ro, nil
 }
 
-// Snapshot reads every `oid:` key of the base store as seen from the case layer.
+// Snapshot reads the `oid:` keys of every REALM package from the base store as
+// seen from the case layer.  Package ids start with four flag bits (stdlib,
+// immutable, internal, reserved); the ids of mutable packages therefore have a
+// first hex digit below 4, and the ~10^4 objects of the stdlibs (immutable,
+// identical in every snapshot) are not walked; Exists() looks them up singly.
 func (e *Env) Snapshot() *Snap {
 	s := &Snap{Objs: map[gno.ObjectID]*RawObj{}, Realms: map[gno.PkgID]*RawRealm{}}
 	st := e.CaseCtx.Store(e.BaseKey)
-	it := store.PrefixIterator(nil, st, []byte(oidPrefix))
+	s.exists = func(id gno.ObjectID) bool { return st.Has(nil, []byte(oidPrefix+id.String())) }
+	it := st.Iterator(nil, []byte(oidPrefix+"0"), []byte(oidPrefix+"4"))
 	defer it.Close()
 	for ; it.Valid(); it.Next() {
 		key := string(it.Key())
